@@ -301,6 +301,37 @@ theorem long_integer_literal_rejected (r : Txt) (hv : validNatTok r = true) (hl 
     exact absurd hd (by decide)
   · simp [hv, hnl]
 
+mutual
+theorem intsOK_of_wf : ∀ (v : J), v.WF → v.intsOK = true
+  | .null, _ => rfl | .bool _, _ => rfl | .flt _, _ => rfl | .str _, _ => rfl
+  | .int z, h => by simp only [J.WF] at h; simp [J.intsOK, h]
+  | .arr xs, h => by simp only [J.WF] at h; simp only [J.intsOK]; exact intsOKs_of_wf xs h
+  | .obj kvs, h => by simp only [J.WF] at h; simp only [J.intsOK]; exact intsOKm_of_wf kvs h.1
+theorem intsOKs_of_wf : ∀ (xs : List J), WFs xs → intsOKs xs = true
+  | [], _ => rfl
+  | x :: xs, h => by simp only [WFs] at h; simp [intsOKs, intsOK_of_wf x h.1, intsOKs_of_wf xs h.2]
+theorem intsOKm_of_wf : ∀ (kvs : List (PStr × J)), WFm kvs → intsOKm kvs = true
+  | [], _ => rfl
+  | (_, v) :: kvs, h => by simp only [WFm] at h; simp [intsOKm, intsOK_of_wf v h.2.1, intsOKm_of_wf kvs h.2.2]
+end
+
+/-- **the serializer is total on the format's domain**: on every well-formed value — in particular on everything that was loaded from a file
+(`loaded_is_wf`) — CPython's encoder does not refuse, and returns the bytes all the other theorems of this file speak about.  Outside the domain
+(an in-memory integer of more than 4300 digits) it raises `ValueError` and nothing is signed or written. -/
+theorem serPy_total_on_wf (v : J) (h : v.WF) : serPy v = some (ser v) := by
+  simp [serPy, intsOK_of_wf v h]
+
+theorem serPy_refuses_huge_int (z : Int) (h : 10 ^ maxStrDigits ≤ z.natAbs) : serPy (.int z) = none ∧ serPy (.arr [.int z]) = none ∧
+    serPy (.obj [([97], .int z)]) = none := by
+  have : ¬ z.natAbs < 10 ^ maxStrDigits := by omega
+  simp [serPy, J.intsOK, intsOKs, intsOKm, this]
+
+/-- whenever the encoder answers, parsing the answer gives the (key-sorted) value back: the round trip holds wherever serialization exists -/
+theorem serPy_roundtrip (v : J) (h : v.WF) (b : Txt) (hb : serPy v = some b) : parse b = some (canon v) := by
+  rw [serPy_total_on_wf v h] at hb
+  cases hb
+  exact parse_ser v h
+
 /-- **parser soundness**: whatever the parser returns for text without surrogate code points (all strict UTF-8) is a well-formed value,
 and so round-trips: serializing and parsing it again gives its key-sorted form -/
 theorem parsed_roundtrips (t : Txt) (v : J) (ht : AllOK t) (h : parse t = some v) : v.WF ∧ parse (ser v) = some (canon v) :=
